@@ -27,7 +27,7 @@ def pool(ctx):
     body = []
     for i, n in enumerate(names):
         body += [{"k": "label", "nm": n}, {"k": "ins", "mn": "MOV", "ops": [{"t": "r", "w": 32, "n": i % 8}, {"t": "r", "w": 32, "n": (i + 3) % 8}]}, {"k": "ins", "mn": "RET", "ops": []}]
-    ps.append(COFF_HDR + [{"k": "global", "names": names[:17]}, {"k": "global", "names": names[17:] + ["_undefined_one", "_undef2"]}, {"k": "cfg", "mn": "SECTION", "s": ".text"}] + body)
+    ps.append(COFF_HDR + [{"k": "extern", "names": ["_ext_c", "_ext_a", "_ext_b", "_a_long_external_symbol_name"]}, {"k": "global", "names": names[:17]}, {"k": "global", "names": names[17:] + ["_undefined_one", "_undef2"]}, {"k": "cfg", "mn": "SECTION", "s": ".text"}] + body)
     ps.append(COFF_HDR + [{"k": "global", "names": ["_io_hlt"]}, {"k": "cfg", "mn": "SECTION", "s": ".text"}, {"k": "label", "nm": "_io_hlt"}, {"k": "ins", "mn": "HLT", "ops": []}, {"k": "ins", "mn": "RET", "ops": []}])
     ps.append(progs.complete(c32[1], org=None, bits=32))
     # a program that fails (diagnosed) and one with EQU chains
@@ -42,6 +42,14 @@ def pool(ctx):
         both.append({"k": "label", "nm": "m%d" % j})
         both.append({"k": "br", "mn": "JMP", "tgt": {"t": "l", "nm": "m%d" % j, "add": 0}})
         both.append({"k": "ins", "mn": "MOV", "ops": [{"t": "r", "w": 16, "n": 6}, {"t": "l", "nm": "m%d" % j, "add": 0}]})
+    # a program that refers to EQU constants many times (anything counted per reference across assemblies shows up quickly)
+    eq = [{"k": "org", "v": 0x7c00}, {"k": "equ", "nm": "CYLS", "e": {"o": "n", "v": 10}}, {"k": "equ", "nm": "VRAM", "e": {"o": "n", "v": 0x0ff8, "sty": "h"}},
+          {"k": "equ", "nm": "LEDS", "e": {"o": "+", "a": {"o": "id", "nm": "VRAM"}, "b": {"o": "n", "v": 1}}}]
+    for j in range(30):
+        eq.append({"k": "ins", "mn": "MOV", "ops": [{"t": "r", "w": 8, "n": j % 8}, {"t": "l", "nm": "CYLS", "add": 0}]})
+        eq.append({"k": "ins", "mn": "MOV", "ops": [{"t": "m", "w": 0, "aw": 0, "b": -1, "x": -1, "sc": 1, "d": 0, "hd": 0, "lab": "LEDS"}, {"t": "r", "w": 8, "n": 0}]})
+        eq.append({"k": "data", "mn": "DW", "items": [{"t": "e", "e": {"o": "*", "a": {"o": "id", "nm": "CYLS"}, "b": {"o": "n", "v": 512}}}]})
+    ps.append(eq)
     ps.append([{"k": "org", "v": 0x7c00}] + both)
     ps.append([{"k": "org", "v": 0x7c00}, {"k": "bits", "v": 32}] + both)
     return ps
